@@ -68,7 +68,8 @@ func boundaryValues(t reflect.Type, a *spec.Attr) []reflect.Value {
 			add(f)
 		}
 	case reflect.String:
-		for _, s := range []string{"", "a", " ", "\x00", "a\x00b", "\xff\xfe", "ünï©ode ✓ 日本語", strings.Repeat("x", 10000), "line\nbreak\r\n", "\"q\"", "null", "0"} {
+		for _, s := range []string{"", "a", " ", "\x00", "a\x00b", "\xff\xfe", "ünï©ode ✓ 日本語", strings.Repeat("x", 10000), "line\nbreak\r\n", "\"q\"", "null", "0",
+			"base64:QUJD", "base64:", "hex:00ff", "0x1f", "b64:AAAA", "data:text/plain;base64,QQ==", "${var.x}", "%!s(MISSING)", "\\x00", "[]", "{}", "true", "QUJD", "AAAA"} {
 			add(s)
 		}
 	case reflect.Slice:
@@ -76,7 +77,8 @@ func boundaryValues(t reflect.Type, a *spec.Attr) []reflect.Value {
 		for i := range all {
 			all[i] = byte(i)
 		}
-		for _, b := range [][]byte{nil, {}, {0}, {0xff}, all, []byte("text"), make([]byte, 4096)} {
+		for _, b := range [][]byte{nil, {}, {0}, {0xff}, all, []byte("text"), make([]byte, 4096),
+			[]byte("base64:QUJD"), []byte("base64:"), []byte("hex:00ff"), []byte("b64:AAAA"), []byte("QUJD"), []byte("AAAA"), []byte("0x1f"), []byte("data:;base64,QQ==")} {
 			out = append(out, reflect.ValueOf(b).Convert(t))
 		}
 	}
